@@ -490,6 +490,11 @@ fn run_history<T: Payload + chan::IntoHandle>(p: &HistParams, property: &str, fa
     lives.clear();
     drop(ch);
     let _ = next_id;
+    if T::HAS_DROP {
+        // what the teardown destroyed is part of the observable behaviour too (differential against a fresh channel: C15)
+        let ledger: Vec<(u32, (u32, u32))> = ctx::with_ctx(|c| c.ledger.ids.iter().map(|(id, e)| (*id, *e)).collect()).unwrap_or_default();
+        tr.0.push(format!("after teardown: (payload, (created, destroyed)) = {:?}", ledger));
+    }
     tr.0
 }
 
@@ -517,6 +522,7 @@ fn history_body(p: &HistParams, property: &'static str, family: &'static str) {
         });
     }
     if p.other_origin != 0 && !ctx::aborted() {
+        ctx::with_ctx(|c| c.ledger = Default::default());
         let (other, _) = run(p.other_origin);
         if !ctx::aborted() && other != base {
             let first = base.iter().zip(other.iter()).position(|(a, b)| a != b).unwrap_or(base.len().min(other.len()));
